@@ -135,6 +135,13 @@ def gen_request(rng, thorough):
             pts.append(rng.choice([tuple(round(v, 4) for v in start), pts[0], pts[rng.randrange(len(pts) - 1)]]))
         if rng.random() < 0.15:
             pts.append((0.0, 0.0, 0.0))      # a vertex on the work origin
+        if kind == "polyline" and rng.random() < 0.3:
+            # collinear runs, exactly: way-points on one straight stroke, and a stroke out and back along itself -- every
+            # given point is a vertex of the path, whether or not it changes the direction
+            d = (float(rng.randint(-6, 6) or 2), float(rng.randint(-6, 6)), 0.0)
+            b = tuple(float(round(v)) for v in start)
+            stroke = [tuple(b[i] + k * d[i] for i in range(3)) for k in rng.choice([(1, 2, 3), (3, 1), (2, 4, 1), (1, 2, 1, 0)])]
+            pts = stroke + pts if rng.random() < 0.5 else pts + stroke
         s["points"] = pts
         s["dim"] = rng.choice([2, 3])
         size = step
@@ -486,6 +493,9 @@ def main():
     reqs.insert(0, dict(kind="polyline", start=(3.0, 4.0, 1.0), ccw=True, relative=False, points=[(1.0, 1.0, 1.0), (0.0, 0.0, 0.0), (2.0, 0.0, 0.0)], dim=3, size=3.0, res=0.5))
     reqs.insert(0, dict(kind="spline", start=(0.0, 0.0, 0.0), ccw=True, relative=False, points=[(5.0, 5.0, 0.0), (10.0, 0.0, 0.0), (5.0, -5.0, 0.0), (0.0, 0.0, 0.0)], dim=3, size=7.0, res=0.5))
     reqs.insert(0, dict(kind="spline", start=(2.0, 1.0, 0.0), ccw=True, relative=True, points=[(6.0, 5.0, 0.0), (9.0, 1.0, 0.0), (6.0, 5.0, 0.0), (2.0, 8.0, 0.0)], dim=3, size=6.0, res=0.4))
+    # way-points on one straight stroke and a stroke out and back along itself
+    reqs.insert(0, dict(kind="polyline", start=(0.0, 0.0, 0.0), ccw=True, relative=False, points=[(10.0, 0.0, 0.0), (4.0, 0.0, 0.0), (4.0, 3.0, 0.0), (4.0, 6.0, 0.0)], dim=3, size=5.0, res=0.5))
+    reqs.insert(0, dict(kind="polyline", start=(2.0, 2.0, 1.0), ccw=True, relative=True, points=[(4.0, 4.0, 1.0), (6.0, 6.0, 1.0), (3.0, 3.0, 1.0)], dim=3, size=5.0, res=0.5))
     # a helical arc down to the Z = 0 plane exactly, from a start above it (absolute and relative phrasing)
     reqs.insert(0, dict(kind="arc_helical", start=(8.0, 0.0, 4.0), ccw=True, relative=False, centre=(-4.0, 0.0), target=(4.0, 4.0, 0.0), has_z=True, size=4.0, res=0.3))
     reqs.insert(0, dict(kind="arc_helical", start=(8.0, 0.0, -2.5), ccw=False, relative=True, centre=(-4.0, 0.0), target=(4.0, -4.0, 0.0), has_z=True, size=4.0, res=0.3))
